@@ -429,6 +429,7 @@ fn model_class(sc: &Scenario) -> String {
     let case = Case {
         job: sc.job.clone(),
         proc: model_plan(sc),
+        later: vec![],
     };
     let cache = c19::new_ref_cache();
     let reference = c19::reference_for(&cache, &case.job);
